@@ -8,7 +8,7 @@
    xonsh's reading rules (SafeStyles).  Behaviour of the pinned completer that contradicts the
    property is confined to named Dev_* disjuncts whose enabling conditions are features of the name
    and of the opening style; anything else the real completer gets wrong is explained by no action. *)
-EXTENDS Naturals, Sequences, FiniteSets, TLC
+EXTENDS Naturals, Integers, Sequences, FiniteSets, TLC
 
 CONSTANTS Alphabet, MaxLen, Deviations
 
@@ -50,7 +50,12 @@ DevEnabled(d, n, o, k, ca) ==
     [] d = "Dev_RawOpenSameQuote"      -> \/ (Has(n, "sq") /\ (o = "rsq" \/ (o = "sq" /\ (Has(n, "dl") \/ Has(n, "bs")))))
                                           \/ (Has(n, "dq") /\ (o = "rdq" \/ (o = "dq" /\ (Has(n, "dl") \/ Has(n, "bs")))))
     \* inserted bare right after `cmd `, a name starting with `=` or `:` turns the line into Python
-    [] d = "Dev_LeadingAssignBare"     -> n[1] \in {"eq", "colon"} /\ o \in {"none", "sq", "dq"}
+    [] d = "Dev_LeadingAssignBare"     -> /\ o \in {"none", "sq", "dq"}
+                                          /\ \/ n[1] \in {"eq", "colon"}
+                                             \/ Len(n) >= 2 /\ n[2] = "eq" /\ n[1] \in {"dash", "at", "pct", "caret"}   \* `c0 -=x` is an augmented assignment
+    \* a `~` at the start of the name or right after `=` is expanded to the home directory when the
+    \* name is inserted in plain (non-raw) quotes
+    [] d = "Dev_TildeExpandedInQuotes" -> \E i \in 1..Len(n) : n[i] = "tilde" /\ (i = 1 \/ n[i - 1] = "eq")
     [] d = "Dev_BangUnquoted"          -> Has(n, "bang") /\ o \in {"none", "sq", "dq"}
     [] d = "Dev_MixedQuotesRaw"        -> Has(n, "sq") /\ Has(n, "dq") /\ (Has(n, "dl") \/ Has(n, "bs"))
     [] d = "Dev_ControlWithDollar"     -> HasAny(n, Ctrl) /\ Has(n, "dl") /\ o \in {"none", "sq", "dq"}
